@@ -80,7 +80,7 @@ def check_paths(chk, ex, D, o, res, bs, bin_dev):
 
 
 def run(chk):
-    nbytes = 8 if chk.tier == 'quick' else 11
+    nbytes = 9 if chk.tier == 'quick' else 11
     chk.bounds['version string bytes'] = '0..=%d, every byte value 0..=127' % nbytes
     # ---- K: ordering / From for all u32^4
     names = ['version_order_is_lexicographic', 'version_from_arrays_zero_fills']
